@@ -51,8 +51,8 @@ theorem C05_tie_collection_path :
 
 /-- the pinned container functions the model was written against (ssv-spec v0.3.7) -/
 theorem C05_tie_container_source :
-    Gen.src_spec_AddSignature = "4fe90df148e5fcd3" ∧ Gen.src_spec_HasQuorum = "9753f8f26ac87e61" ∧
-    Gen.src_spec_Remove = "e48c2a4e9d1665a1" := by decide
+    Gen.src_spec_AddSignature = "5d263c60abe32cc6" ∧ Gen.src_spec_HasQuorum = "76933fb6bdf7c9a5" ∧
+    Gen.src_spec_Remove = "a9343785b2baf40c" := by decide
 
 /-- quorum arithmetic, through the kernel TRANSLATED from `ComputeQuorumAndPartialQuorum`: for the four valid committee
     sizes the collection threshold is 2f+1 with f = (n-1)/3 -/
